@@ -297,7 +297,7 @@ def windows_profile_rt_c03(x, y, dx, integral_values, fixed_points_indices_in_x,
 # ============================================================================ resolution (top level)
 
 contract(TOP, params=dict(x=Seq(Real), y=Seq(Real), x_ref=Seq(Real),
-                          y_ref=Seq(Real), fixed_points_in_x=NoneT, fixed_points_indices_in_x=NoneT,
+                          y_ref=Seq(Real), fixed_points_in_x=Opt(Seq(Real, kind='arraylike')), fixed_points_indices_in_x=Opt(Seq(Int, kind='arraylike')),
                           fixed_points_finding_strategy=Str, target_function_integral_method=Str,
                           reference_function_integral_method=Str, alpha=Real, s=NoneT),
          returns=Seq(Real), generator='gen_top')
@@ -332,12 +332,14 @@ def ref_e(x, x_ref, P, F, j):
 
 def explicit_ok(x, x_ref, P, F):
     """the property's quantifier for explicitly designated fixed points: given in increasing order, members of x, distinct with
-    at least one interior sample per interval, and corresponding to distinct reference positions"""
+    at least one interior sample per interval, and corresponding to distinct reference positions (stated pairwise)"""
     return ((forall(range(len(F)), lambda j: 0 <= F[j] and F[j] < len(x)) and strictly_increasing(F)) if F is not None
-            else (strictly_increasing(P) and forall(range(len(P)), lambda j: x[nearest(x, P[j], 'closest')] == P[j]))) \
+            else (strictly_increasing(P) and forall(range(len(P)), lambda j: 0 <= nearest(x, P[j], 'closest')
+                                                    and nearest(x, P[j], 'closest') < len(x) and x[nearest(x, P[j], 'closest')] == P[j]))) \
         and n_e(P, F) >= 1 \
-        and forall(range(n_e(P, F) - 1), lambda j: fix_e(x, P, F, j + 1) - fix_e(x, P, F, j) >= 2
-                   and ref_e(x, x_ref, P, F, j) < ref_e(x, x_ref, P, F, j + 1))
+        and forall(range(n_e(P, F) - 1), lambda j: fix_e(x, P, F, j + 1) - fix_e(x, P, F, j) >= 2) \
+        and forall(range(n_e(P, F)), lambda i: forall(range(n_e(P, F)), lambda j:
+                   implies(i < j, ref_e(x, x_ref, P, F, i) < ref_e(x, x_ref, P, F, j))))
 
 
 @requires(TOP)
@@ -358,20 +360,23 @@ def top_rejected(x, y, x_ref, y_ref, fixed_points_in_x, fixed_points_indices_in_
                  target_function_integral_method, reference_function_integral_method, alpha, s):
     """unknown search strategy or integration rule (the target rule only matters once there is a window)"""
     return ((not known_rule(reference_function_integral_method)
-             or (not known_rule(target_function_integral_method) and n_e(fixed_points_in_x, fixed_points_indices_in_x) >= 2))
+             or (not known_rule(target_function_integral_method) and n_e(fixed_points_in_x, fixed_points_indices_in_x) >= 2)
+             # more designated fixed points than samples (both arguments are checked, also the one that is then not used)
+             or (fixed_points_in_x is not None and len(fixed_points_in_x) > len(x))
+             or (fixed_points_indices_in_x is not None and len(fixed_points_indices_in_x) > len(x)))
             if (fixed_points_in_x is not None or fixed_points_indices_in_x is not None)       # the search strategy is not used
             else (not known_strategy(fixed_points_finding_strategy) or not known_rule(reference_function_integral_method)
                   or (not known_rule(target_function_integral_method) and len(x_ref) >= 2)))
 
 
-@hint(TOP, before='fixed_points_in_x = np.unique(fixed_points_in_x)')
+@hint(TOP, before='fixed_points_in_x = np.unique(fixed_points_in_x)', optional=True)
 def top_h_selected(x, x_ref, fixed_points_finding_strategy, fixed_points_in_x, last_result):
     """the search result is *the* index the specification determines (uniqueness of the definitional spec)"""
     return (len(last_result) == len(x_ref)
             and forall(range(len(x_ref)), lambda j: last_result[j] == fixed_idx(x, x_ref, j, fixed_points_finding_strategy)))
 
 
-@hint(TOP, before='fixed_points_in_x = np.unique(fixed_points_in_x)')
+@hint(TOP, before='fixed_points_in_x = np.unique(fixed_points_in_x)', optional=True)
 def top_h_increasing(x, x_ref, fixed_points_in_x, last_result):
     """distinct selected samples, at least one interior sample between neighbours (from the precondition)"""
     return (forall(range(len(x_ref)), lambda j: 0 <= last_result[j] and last_result[j] < len(x))
@@ -382,13 +387,54 @@ def top_h_increasing(x, x_ref, fixed_points_in_x, last_result):
             and strictly_increasing(fixed_points_in_x))
 
 
+@hint(TOP, before='if len(fixed_points_in_x) >= len(x) + 1 / 2', optional=True)
+def top_h_resolved(x, x_ref, fixed_points_in_x, fixed_points_indices_in_x, fixed_points_in_x_ref_indices, last_result,
+                   fixed_points_in_x__pre, fixed_points_indices_in_x__pre):
+    """default designation, after np.unique / np.where(np.isin(..)): the fixed indices are exactly the selected indices"""
+    return ((len(fixed_points_in_x) == len(x_ref) and len(fixed_points_indices_in_x) == len(x_ref)
+             and forall(range(len(x_ref)), lambda j: fixed_points_indices_in_x[j] == last_result[j])
+             and len(fixed_points_in_x_ref_indices) == len(x_ref)
+             and forall(range(len(x_ref)), lambda j: fixed_points_in_x_ref_indices[j] == j))
+            if (fixed_points_in_x__pre is None and fixed_points_indices_in_x__pre is None) else True)
+
+
+@hint(TOP, before='fixed_points_in_x_ref = x_ref.take(')
+def top_h_fixed_vals(x, fixed_points_in_x, fixed_points_in_x__pre, fixed_points_indices_in_x__pre):
+    """explicit designation: the abscissae looked up in the reference are those of the designated samples, in increasing order"""
+    return (len(fixed_points_in_x) == n_e(fixed_points_in_x__pre, fixed_points_indices_in_x__pre)
+            and forall(range(len(fixed_points_in_x)), lambda j:
+                       fixed_points_in_x[j] == x[fix_e(x, fixed_points_in_x__pre, fixed_points_indices_in_x__pre, j)])
+            and strictly_increasing(fixed_points_in_x))
+
+
+@hint(TOP, before='fixed_points_in_x_ref_indices = np.where(np.isin(x_ref, fixed_points_in_x_ref))[0]')
+def top_h_ref_e(x, x_ref, last_result, fixed_points_in_x__pre, fixed_points_indices_in_x__pre):
+    """explicit designation: the search in the reference abscissae returns, for each fixed point, *the* closest reference
+    position (uniqueness of the definitional specification); by the precondition these positions are strictly increasing"""
+    return (len(last_result) == n_e(fixed_points_in_x__pre, fixed_points_indices_in_x__pre)
+            and forall(range(len(last_result)), lambda j: 0 <= last_result[j] and last_result[j] < len(x_ref)
+                       and last_result[j] == ref_e(x, x_ref, fixed_points_in_x__pre, fixed_points_indices_in_x__pre, j)))
+
+
+@hint(TOP, before='fixed_points_in_x_ref_indices = np.where(np.isin(x_ref, fixed_points_in_x_ref))[0]')
+def top_h_ref_inc(last_result):
+    """... and by the precondition these positions are strictly increasing"""
+    return strictly_increasing(last_result)
+
+
 @hint(TOP, before='if len(fixed_points_in_x) >= len(x) + 1 / 2')
-def top_h_resolved(x, x_ref, fixed_points_in_x, fixed_points_indices_in_x, fixed_points_in_x_ref_indices, last_result):
-    """after np.unique / np.where(np.isin(..)): the fixed indices are exactly the selected indices"""
-    return (len(fixed_points_in_x) == len(x_ref) and len(fixed_points_indices_in_x) == len(x_ref)
-            and forall(range(len(x_ref)), lambda j: fixed_points_indices_in_x[j] == last_result[j])
-            and len(fixed_points_in_x_ref_indices) == len(x_ref)
-            and forall(range(len(x_ref)), lambda j: fixed_points_in_x_ref_indices[j] == j))
+def top_h_resolved_e(x, x_ref, fixed_points_in_x, fixed_points_indices_in_x, fixed_points_in_x_ref_indices,
+                     fixed_points_in_x__pre, fixed_points_indices_in_x__pre):
+    """explicit designation: the fixed indices are the designated ones (explicit indices, or the positions of the explicit
+    abscissae in x) and the reference positions are the closest reference positions"""
+    return ((len(fixed_points_in_x) == n_e(fixed_points_in_x__pre, fixed_points_indices_in_x__pre)
+             and len(fixed_points_indices_in_x) == n_e(fixed_points_in_x__pre, fixed_points_indices_in_x__pre)
+             and forall(range(len(fixed_points_indices_in_x)), lambda j:
+                        fixed_points_indices_in_x[j] == fix_e(x, fixed_points_in_x__pre, fixed_points_indices_in_x__pre, j))
+             and len(fixed_points_in_x_ref_indices) == n_e(fixed_points_in_x__pre, fixed_points_indices_in_x__pre)
+             and forall(range(len(fixed_points_in_x_ref_indices)), lambda j:
+                        fixed_points_in_x_ref_indices[j] == ref_e(x, x_ref, fixed_points_in_x__pre, fixed_points_indices_in_x__pre, j)))
+            if (fixed_points_in_x__pre is not None or fixed_points_indices_in_x__pre is not None) else True)
 
 
 @ensures(TOP)
